@@ -33,7 +33,9 @@ impl WarmUpCalculator {
         let cold_factor_plus = (cold_factor + 1) as f64;
         let cold_factor_minus = (cold_factor - 1) as f64;
         let warning_token = (warm_up_period * threshold / cold_factor_minus) as u64;
-        let max_token = warning_token + 2 * (warm_up_period * threshold / cold_factor_plus) as u64;
+        // the float-to-integer casts saturate for huge thresholds: keep the sum saturating as well
+        let max_token = warning_token
+            .saturating_add(((warm_up_period * threshold / cold_factor_plus) as u64).saturating_mul(2));
         let slope = cold_factor_minus / threshold / (max_token - warning_token) as f64;
 
         WarmUpCalculator {
